@@ -19,7 +19,14 @@ def make_factory(case, created):
         from BPTK_Py import Model, bptk
         m = Model(starttime=start, stoptime=stop, dt=dt, name="c09")
         c = m.constant("c"); f = m.flow("f"); s = m.stock("s"); k = m.converter("k")
-        c.equation = c0; f.equation = c * a; s.initial_value = s0; s.equation = f; k.equation = s * b + c
+        if case.get("family") == "lookback":
+            # the flow looks back two steps at a converter that is never requested and that no stock or flow reads
+            # at its own time: its old values must have been made final before later settings arrive
+            import BPTK_Py.sddsl.functions as sd
+            g = m.converter("g"); g.equation = c * a
+            c.equation = c0; f.equation = sd.delay(m, g, 2 * dt); s.initial_value = s0; s.equation = f; k.equation = s * b + c
+        else:
+            c.equation = c0; f.equation = c * a; s.initial_value = s0; s.equation = f; k.equation = s * b + c
         bp = bptk()
         bp.register_scenario_manager({SM: {"model": m}})
         bp.register_scenarios(scenarios={SC: {"constants": {"c": c0}}}, scenario_manager=SM)
@@ -221,7 +228,7 @@ def reference_rows(case, n):
     rows, s = [], s0
     for j in range(len(cs)):
         c = cs[j]
-        f = max(0, c * a)
+        f = max(0, (cs[max(0, j - 2)] if case.get("family") == "lookback" else c) * a)
         vals = {0: c, 1: f, 2: s, 3: s * b + c}
         rows.append("i%d:" % j + ",".join(fbits(vals[e]) for e in case["eqs"]))
         s = s + dt * f
@@ -316,6 +323,8 @@ def gen_case(rng, fixed=None):
     case = {"a": rng.choice([1.0, 2.0, 0.5, 1.5, 0.3]), "b": rng.choice([1.0, 3.0, 0.25, 1.1]), "s0": rng.choice([0.0, 1.0, 2.5, 0.7]),
             "c0": rng.choice([1.0, 2.0, 0.75, 0.1]), "start": start, "dt": dt, "stop": round(start + n * dt, 10),
             "eqs": rng.choice(EQSETS), "calls": gen_calls(rng, n)}
+    if rng.chance(1, 4):
+        case["family"] = "lookback"
     if fixed:
         case.update(fixed)
     return case
@@ -327,6 +336,8 @@ def fixed_cases():
         for calls in ([("stream", None)], [("steps", 3, None), ("stream", None)], [("step", None)] * 12,
                       [("step", None), ("steps", 2, None), ("step", None), ("stream", None)]):
             out.append(dict(probe_case(dt, 6, [2, 1, 0], list(calls), start=1.0), a=2.0, b=3.0, s0=1.0))
+    for eqs in ([2], [1, 2], [3]):                    # look-back family: c changes with the fourth and sixth step
+        out.append(dict(probe_case(1.0, 8, eqs, [("steps", 3, None), ("step", 5.0), ("step", None), ("step", 0.5), ("stream", None)]), family="lookback"))
     for eqs in EQSETS:                                # the §1 script: c -> 10 with the fourth step
         for dt in (1.0, 0.5):
             out.append(dict(probe_case(dt, 6, eqs, [("steps", 3, None), ("step", 10.0), ("steps", 2, None), ("stream", 0.5)])))
@@ -442,7 +453,7 @@ def run_case(case, facts):
 
 
 def case_show(case):
-    return {k: case[k] for k in ("a", "b", "s0", "c0", "start", "dt", "stop")} | {
+    return {k: case[k] for k in ("a", "b", "s0", "c0", "start", "dt", "stop")} | ({"family": case["family"]} if case.get("family") else {}) | {
         "equations": [EQN[e] for e in case["eqs"]], "calls": [call_show(c) for c in case["calls"]]}
 
 
@@ -496,7 +507,9 @@ def run(chk):
         dist["eqsets"][",".join(EQN[x] for x in case["eqs"])] = dist["eqsets"].get(",".join(EQN[x] for x in case["eqs"]), 0) + 1
         for c in case["calls"]:
             dist["calls"][c[0] + ("+settings" if c[-1] is not None else "")] = dist["calls"].get(c[0] + ("+settings" if c[-1] is not None else ""), 0) + 1
-        req += r; exp += e; owner += [idx] * len(r)
+        if case.get("family") != "lookback":          # the driver models the linear family only; look-back cases: channels + reference
+            req += r; exp += e; owner += [idx] * len(r)
+        dist.setdefault("family", {})[case.get("family", "linear")] = dist.setdefault("family", {}).get(case.get("family", "linear"), 0) + 1
         chk.case(json.dumps(case_show(case), sort_keys=True), nontrivial=len(case["calls"]) > 1 or any(c[-1] is not None for c in case["calls"]),
                  sample=case_show(case) if idx % 17 == 3 else None)
         for key, text, detail in problems:
